@@ -154,6 +154,41 @@ void add_token_faults(PlanOp& op, Rng& rng, int n, const ref::Model& m)
     }
 }
 
+bool stretch_one_lexeme(PlanOp& op, Rng& rng, const ref::Model& m, size_t target_len)
+{
+    std::vector<size_t> cand;
+    for (size_t i = 0; i < op.toks.size(); ++i)
+    {
+        ref::TermKind k = m.g.terms[size_t(op.toks[i].term)].kind;
+        if (k == ref::T_REGEX || k == ref::T_CUSTOM) cand.push_back(i);
+    }
+    while (!cand.empty())
+    {
+        size_t ci = size_t(rng.below(cand.size()));
+        size_t i = cand[ci];
+        cand.erase(cand.begin() + long(ci));
+        PTok& t = op.toks[i];
+        if (m.g.terms[size_t(t.term)].kind == ref::T_CUSTOM)
+        {
+            t.lex.assign(target_len, 'k');
+            return true;
+        }
+        // find a position whose byte can be repeated without leaving the term's language
+        for (size_t pos = 0; pos < t.lex.size(); ++pos)
+        {
+            std::string probe = t.lex;
+            probe.insert(pos, 12, t.lex[pos]);
+            ref::LexResult lr = m.lexer->match(probe.data(), int64_t(probe.size()));
+            if (lr.term == t.term && size_t(lr.len) == probe.size())
+            {
+                if (target_len > t.lex.size()) t.lex.insert(pos, target_len - t.lex.size(), t.lex[pos]);
+                return true;
+            }
+        }
+    }
+    return false;
+}
+
 Plan single_op_plan(const std::string& property, uint64_t seed, int64_t index, const std::string& mode, const PlanOp& op)
 {
     Plan p;
